@@ -238,6 +238,23 @@ pub fn run(ctx: &Ctx) -> i32 {
                 if vb != base {
                     rep.violation("verdict", "c14-verdict", &format!("reloaded rule gives different verdicts (optimise[{}])", sw.name()), case.clone());
                 }
+                // a second trip: the reloaded rule is validated, optimised again with another switch
+                // set, serialised and reloaded - still the original rule
+                {
+                    let _ = eng::validate(&back);
+                    let again = eng::optimise(&back, Sw(if sw.0 == 15 { 2 } else { 15 })).unwrap_or_else(|_| back.clone());
+                    rep.evaluations += 1;
+                    match eng::guard(|| serde_yaml::to_string(&again)).ok().and_then(|r| r.ok()).map(|t| (eng::load(&t), t)) {
+                        Some((Ok(Load::Ok(b2)), _)) => {
+                            let v2: Vec<bool> = maps.iter().map(|m| eng::matches(&b2, m).unwrap_or(false)).collect();
+                            if eng::printed(&b2) != eng::printed(&rule) || v2 != base {
+                                rep.violation("second-trip", "c14-second-trip", &format!("after a second optimise/serialise/reload round the rule differs from the original (first optimise[{}])", sw.name()), case.clone());
+                            }
+                        }
+                        Some((_, t)) => rep.violation("second-trip", "c14-second-trip-load", &format!("the rule serialised a second time does not load (first optimise[{}])", sw.name()), json!({"rule": text, "serialised": t, "switches": sw.0, "expected": "load-ok"})),
+                        None => rep.violation("second-trip", "c14-second-trip-serialise", "serialising the reloaded rule fails", case.clone()),
+                    }
+                }
                 // the reloaded rule also round-trips through from_value
                 if let Ok(sv) = serde_yaml::from_str::<Y>(&ser) {
                     rep.evaluations += 1;
